@@ -169,3 +169,12 @@ def label_sigs(recipe: dict, prog) -> Dict[str, Tuple[int, int]]:
         if base in byname and lab[len(base) + 1 :].isdigit():
             out[lab] = byname[base]
     return out
+
+
+def static_issue(teal: str, version: int, mode: str = "app"):
+    """first judging issue of the C04 validity predicate on an emitted text, or None (used by the ABI/router
+    properties so that text the assembler cannot accept is never counted as a correct answer)"""
+    from .teal import static
+
+    sure, _unsure, _prog = static.check_program(teal, version, mode)
+    return sure[0] if sure else None
